@@ -651,7 +651,7 @@ theorem readHeader_safe (s : Stream) :
       repeat' split
       all_goals intro h
       all_goals first
-        | (cases h; exact ⟨rfl, h2.2, (by omega), h1.2.2, rfl, hlt _⟩)
+        | (cases h; have h11 := h1.1; exact ⟨rfl, h2.2, (by omega), h1.2.2, rfl, hlt _⟩)
         | cases h
   · rename_i b s' hne hrf
     have h1 := readFull_got hrf
